@@ -590,6 +590,10 @@ theorem live_rOp {s s' : St} {op : Op} (hl : Live s) (hop : opCapOK op) (h : ste
     | read want =>
       simp only at h; cases h
       exact live_advance _ _ hq
+    | readAt off want =>
+      simp only at h; cases h
+      apply live_advance
+      exact hq
     | prefetch fs cap =>
       simp only at h
       split at h
@@ -893,7 +897,7 @@ theorem run_live {s : St} (hl : Live s) (as : List Act) (ha : ∀ a ∈ as, actO
     | none => simpa using hl
     | some s' => simpa using step_live hl (ha a (List.mem_cons_self ..)) hs
 
-theorem init_live (file : Bytes) (maxReq : Nat) : Live (init file maxReq) := by
+theorem init_live (file : Bytes) (maxReq : Nat) (bufsize : Nat := 0) : Live (init file maxReq bufsize) := by
   unfold Live init
   refine ⟨?_, ?_, ?_, ?_, ?_, ?_, ?_⟩ <;> simp [syncNum]
 
